@@ -178,6 +178,24 @@ def extract(repo):
         - len(re.findall(r"impl\b[^{;]*\brkyv::(?:Serialize|Deserialize)\b[^{;]*\bfor\s+Decimal\b", re.sub(r"//[^\n]*", "", allsrc)))
     ra = find(r'#\[cfg_attr\(\s*all\(feature = "rkyv", not\(feature = "packed"\)\),(.*?)\)\]\s*#\[cfg_attr\(feature = "packed"', attrs, "rkyv attribute of Decimal").group(1)
     c["RKYV_DERIVES"] = re.findall(r"rkyv::(\w+)", find(r"derive\(([^)]*)\)", ra, "rkyv derive").group(1))
+    # the associated constants of `Decimal` (ZERO, ONE, …, MAX, MIN, DELTA): name, coefficient, fractional digits
+    def cval(e):
+        e = e.strip().replace("_i128", "").replace("_u8", "")
+        if e == "MAX_N_FRAC_DIGITS":
+            return c["MAX_N_FRAC_DIGITS"]
+        mm = re.fullmatch(r"(i128::MAX|i128::MIN|-?[\d_]+)(?:\s*([+-])\s*([\d_]+))?", e)
+        if not mm:
+            raise Missing("constant expression " + e)
+        v = {"i128::MAX": 2 ** 127 - 1, "i128::MIN": -(2 ** 127)}.get(mm.group(1))
+        if v is None:
+            v = int(mm.group(1).replace("_", ""))
+        if mm.group(2):
+            v = v + int(mm.group(3).replace("_", "")) if mm.group(2) == "+" else v - int(mm.group(3).replace("_", ""))
+        return v
+    dc = re.findall(r"pub const (\w+): Self = Self \{\s*coeff: ([^,]+),\s*n_frac_digits: ([^,]+),\s*\};", re.sub(r"//[^\n]*", "", libs))
+    if not dc:
+        raise Missing("associated constants of Decimal")
+    c["DECIMAL_CONSTS"] = [(n_, cval(a_), cval(b_)) for n_, a_, b_ in dc]
     m = find(r'#\[cfg\(all\(feature = "rkyv", feature = "packed"\)\)\]\s*#\[derive\(Copy, Clone\)\]\s*#\[repr\(C, packed\)\]\s*pub struct ArchivedDecimal \{(.*?)\n\}', libs, "struct ArchivedDecimal (packed)")
     c["ARCHIVED_FIELDS"] = re.findall(r"^\s*(?:pub(?:\([a-z]+\))?\s+)?(\w+):\s*([\w:<>]+),", m.group(1), re.M)
     m = find(r"pub enum RoundingMode \{(.*?)\n\}", rnd, "enum RoundingMode")
@@ -235,6 +253,7 @@ def render(c):
     L.append(f"def SERDE_TRY_FROM : String := \"{c['SERDE_TRY_FROM']}\"")
     L.append(f"def SERDE_OTHER_ATTRS : Nat := {c['SERDE_OTHER_ATTRS']}")
     L.append(f"def SERDE_MANUAL_IMPLS : Nat := {c['SERDE_MANUAL_IMPLS']}")
+    L.append("def DECIMAL_CONSTS : List (String × Int × Nat) := [" + ", ".join(f'("{n_}", {a_}, {b_})' for n_, a_, b_ in c["DECIMAL_CONSTS"]) + "]")
     L.append(f"def RKYV_DERIVES : List String := {strs(c['RKYV_DERIVES'])}")
     L.append("def ROUNDING_MODE_VARIANTS : List String := [" + ", ".join(f'"{v}"' for v in c["ROUNDING_MODE_VARIANTS"]) + "]")
     L.append("")
